@@ -132,8 +132,8 @@ PRIORITY = {
     "pyairtouch/comms/crc16.py": ["C06"],
     "pyairtouch/comms/encoding.py": ["C05", "C03"],
     "pyairtouch/comms/__init__.py": ["C17", "C03", "C07"],
-    "pyairtouch/at4/api.py": ["C10", "C09", "C11", "C14", "C12", "C02", "C15"],
-    "pyairtouch/at5/api.py": ["C10", "C09", "C11", "C14", "C12", "C02", "C15"],
+    "pyairtouch/at4/api.py": ["C10", "C11", "C09", "C14", "C12", "C19"],
+    "pyairtouch/at5/api.py": ["C10", "C11", "C09", "C14", "C12", "C19"],
 }
 
 
@@ -141,7 +141,7 @@ def checks_for(rel, props):
     if rel in PRIORITY:
         return PRIORITY[rel]
     if "/comms/" in rel:
-        return ["C05", "C03", "C04", "C17", "C09"]
+        return ["C05", "C03", "C04", "C17"]
     out = []
     for p in props:
         for pat in p["anchors"]["files"]:
